@@ -36,7 +36,7 @@ Init == /\ prog = <<>> /\ dim = [s \in Slots |-> -1] /\ topo = [s \in Slots |-> 
 \* number of state drivers, kind of recipe) is made by this first step, not by Init
 Setup == /\ phase = "setup" /\ phase' = "op"
          /\ anchor' = Mat([s \in 1..3 |-> Mat([i \in 1..(MaxDim + 2) |-> RE(-1..1)])])
-         /\ nd' \in {RE(0..3)} /\ rk' \in {IF "chain" \in OpSet THEN "chain" ELSE RE({"op", "op", "copy"})}
+         /\ nd' \in {RE(0..3)} /\ rk' \in {IF "chain" \in OpSet THEN "chain" ELSE IF "copy-recipe" \in OpSet THEN "copy" ELSE RE({"op", "op", "copy"})}
          /\ UNCHANGED <<prog, dim, topo, cur, focus>>
 Alive(s) == dim[s] >= 0
 AliveS == {s \in Slots : Alive(s)}
@@ -93,6 +93,8 @@ DimDown == {"remove_dims", "remove_higher", "fold"}
 DimOther == {"unconstrain", "unconstrain_set", "map_dims"}
 AllOps == CtorOps \cup UnObs \cup VarObs \cup ExprObs \cup BinObs \cup ConOps \cup ConsOps \cup GenOps \cup GensOps \cup CgOps \cup CgsOps
           \cup BinMut \cup WidOps \cup PoolOps \cup UnMut \cup ImgOps \cup LhsOps \cup DimUp \cup DimDown \cup DimOther
+\* OpSet <- CopyRecipeOps: every recipe history is a copy recipe (C13: the copy, assignment and swap paths of a value in a prepared internal state)
+CopyRecipeOps == AllOps \cup {"copy-recipe"}
 \* (an affine image transforms both descriptions in place -- non-unit divisors, rows no longer normalized or sorted -- without minimizing anything)
 DriverOps == {"min_constraints", "min_generators", "constraints", "generators", "add_generator", "add_constraint", "is_empty", "contains", "equals", "add_generators", "add_constraints", "affine_image"}
 \* (dump / load is also a state driver: it rebuilds the element from text -- with divisor 16 above, from fractions below 1/10 as well)
@@ -110,7 +112,7 @@ OpOK(op) == IF op \in CtorOps THEN TRUE ELSE AliveS # {}
    are observed.  Free mode: random walk over all operations. *)
 \* two kinds of recipe: "op"  : ctor, ctor, nd drivers on slot 1, target operation on slot 1, two observers;
 \*                        "copy": ctor, ctor, nd drivers on slot 1 (slot 1 may also serve as the const argument of a widening of
-\*                                slot 2), slot 2 := slot 1 by assignment / copy / swap, a mutator on the copy, two observers
+\*                                slot 2; one driver in three goes to slot 2 instead, so that the object assigned INTO has an internal state of its own), slot 2 := slot 1 by assignment / copy / swap, a mutator on the copy, two observers
 \*                        "chain" (C08, selected by the pseudo-operation "chain" in OpSet): an ascending chain  x_0, x_{k+1} = W(x_k grown, x_k):
 \*                                ctor on slot 1, then 2 + nd times [slot 2 := copy of slot 1; grow slot 1; widen slot 1 with slot 2]
 \* powerset "copy" recipes have one more step: the copy first gets a further disjunct (drawn around the ORIGINAL's anchor, so that it often
@@ -160,7 +162,7 @@ Args ==
   /\ phase = "args" /\ phase' = "op" /\ cur' = "none"
   \* locality: two calls in three go to the slot used last, so that sequences of calls build up state on one object
   /\ UNCHANGED <<nd, rk>>
-  /\ \E s0 \in {IF Recipe THEN (IF Len(prog) = 1 \/ AfterCopy \/ (rk = "copy" /\ cur \in {"H79_widening", "assign", "copy_from", "swap"}) THEN (IF rk = "chain" /\ Len(prog) = 1 THEN 1 ELSE 2) ELSE 1) ELSE IF AliveS = {} THEN focus ELSE IF Alive(focus) /\ RE(1..3) <= 2 THEN focus ELSE RE(AliveS)} : focus' = s0 /\
+  /\ \E s0 \in {IF Recipe THEN (IF Len(prog) = 1 \/ AfterCopy \/ (rk = "copy" /\ cur \in {"H79_widening", "assign", "copy_from", "swap"}) \/ (rk = "copy" /\ Len(prog) >= 2 /\ Len(prog) < 2 + nd /\ RE(1..3) = 1) THEN (IF rk = "chain" /\ Len(prog) = 1 THEN 1 ELSE 2) ELSE 1) ELSE IF AliveS = {} THEN focus ELSE IF Alive(focus) /\ RE(1..3) <= 2 THEN focus ELSE RE(AliveS)} : focus' = s0 /\
      \E ill \in {IF Recipe /\ Len(prog) < 2 + nd THEN FALSE ELSE Ill(Len(prog))} :
      \/ /\ cur \in CtorOps
         /\ \E s \in {IF Recipe \/ RE(1..2) = 1 THEN s0 ELSE RE(Slots)} :
